@@ -150,7 +150,19 @@ def run_property(modname, tier, seed, replay=None, budget_s=None):
     nproc = min(NPROC, len(chunks))
     with ctx.Pool(nproc, initializer=_init_worker, initargs=(modname,)) as pool:
         it = pool.imap_unordered(_run_chunk, chunks)
-        for out in it:
+        while True:
+            try:
+                out = it.next(timeout=5)
+            except StopIteration:
+                break
+            except mp.TimeoutError:
+                # watchdog: a single case that runs away (e.g. state leaking between calls makes every call slower)
+                # must not keep the check from reporting what it has
+                if budget_s and time.time() - t_start > budget_s * 1.25:
+                    agg["capped"] = True
+                    pool.terminate()
+                    break
+                continue
             for res in out:
                 agg["cases_done"] += 1
                 agg.setdefault("walls", []).append((res.get("wall", 0), agg["cases_done"]))
